@@ -125,6 +125,51 @@ static int recsMode(const char *inFile, const char *outFile)
 }
 
 // ---------------------------------------------------------------------------
+// C20: the same call sequence twice (unrelated solver work and allocations in between), and once translated
+static void runHistory(const VInst &I, double delta, std::vector<std::vector<double> > &results)
+{
+    Live lv; lv.build(I);
+    if (delta != 0) for (auto v : lv.vs) v->desiredPosition += delta;
+    auto snap = [&]() { std::vector<double> r; for (auto v : lv.vs) r.push_back(v->finalPosition); results.push_back(r); };
+    try { lv.solver->solve(); } catch (...) {}
+    snap();
+    for (auto &op : I.ops) {
+        if (op.kind == 1) for (int v = 0; v < I.n; v++) lv.vs[v]->desiredPosition = op.des[v] + delta;
+        else if (op.kind == 2) lv.addCon(op.c, true);
+        else { try { if (op.kind == 3) lv.solver->solve(); else lv.solver->satisfy(); } catch (...) {} snap(); }
+    }
+}
+
+static int repeatMode(const char *inFile, const char *outFile)
+{
+    std::ifstream in(inFile);
+    vt::Out out(outFile);
+    out.line(std::string("{\"chunk\":50,\"recs\":["));
+    VInst I, prev; bool first = true, havePrev = false; vt::Rng rng(vt::envSeed());
+    while (readInst(in, I)) {
+        std::vector<std::vector<double> > A, B, T;
+        runHistory(I, 0, A);
+        std::vector<void *> junk; for (int q = 0; q < 100; q++) junk.push_back(malloc(16 + rng.next() % 700));
+        if (havePrev) { std::vector<std::vector<double> > X; runHistory(prev, 0, X); }
+        for (size_t q = 0; q < junk.size(); q += 2) free(junk[q]);
+        runHistory(I, 0, B);
+        for (size_t q = 1; q < junk.size(); q += 2) free(junk[q]);
+        int k = (int)(rng.next() % 8193) - 4096;
+        runHistory(I, k / 1024.0, T);
+        vt::J j; j.obj().k("kind").s("vpsc").k("n").i(I.n).k("m").i(I.m).k("k").i(k);
+        auto lim = [&](const char *key, std::vector<std::vector<double> > &R) { j.k(key).arr(); for (auto &r : R) { j.arr(); for (double v : r) vt::limbs(j, v); j.end(); } j.end(); };
+        lim("A", A); lim("B", B);
+        double dev = 0; bool shape = A.size() == T.size();
+        for (size_t s = 0; shape && s < A.size(); s++) for (size_t v = 0; v < A[s].size(); v++) dev = std::max(dev, fabs(T[s][v] - (A[s][v] + k / 1024.0)));
+        j.k("shape").b(shape).k("devE12").i(std::isfinite(dev) ? (long long)std::min(dev * 1e12, 2e9) : 2000000000).end();
+        out.line((first ? "" : ",") + j.out); first = false;
+        prev = I; havePrev = true;
+    }
+    out.line(std::string("]}"));
+    return 0;
+}
+
+// ---------------------------------------------------------------------------
 // seeded generator of instances (text format of readInst)
 static void writeInst(FILE *f, const VInst &I)
 {
